@@ -128,8 +128,7 @@ inductive Out (α : Type) where
 
 /-! ## Part 2 — mechanism (proxy.go), hand transcription -/
 
-/-- proxy.go:913 __isCompatibleDescriptor — the code as it is (kind-mismatch branch returns
-`desc.Configurable != FLAG_FALSE`). -/
+/-- proxy.go:913 __isCompatibleDescriptor (the code as it is, after commits cc2cbee and 7553bcd). -/
 def isCompatible (extensible : Bool) (desc : Desc) (current : Option VProp) : Bool :=
   match current with
   | none => extensible                                                     -- :914
@@ -138,7 +137,7 @@ def isCompatible (extensible : Bool) (desc : Desc) (current : Option VProp) : Bo
       if desc.configurable == .tru then false                              -- :919
       else if desc.enumerable != .notSet && desc.enumerable.bool != cur.enumerable then false  -- :923
       else if desc.isGeneric then true                                     -- :927
-      else if desc.isData != !cur.accessor then desc.configurable != .fals -- :931-932
+      else if desc.isData != !cur.accessor then false                      -- :931-932
       else if desc.isData && !cur.accessor then                            -- :935
         if desc.writable == .tru && !cur.writable then false               -- :937
         else if !cur.writable then
@@ -153,8 +152,9 @@ def isCompatible (extensible : Bool) (desc : Desc) (current : Option VProp) : Bo
       else true
     else true
 
-/-- the same with the kind-mismatch branch returning `false` (fixes/C11-compat-kind-mismatch.diff). -/
-def isCompatibleFixed (extensible : Bool) (desc : Desc) (current : Option VProp) : Bool :=
+/-- REGRESSION ONLY: the kind-mismatch branch as it was before commit 7553bcd
+(`return desc.Configurable != FLAG_FALSE`); see Props.isCompatible_kindMismatch_prefix_witness. -/
+def isCompatibleKindPreFix (extensible : Bool) (desc : Desc) (current : Option VProp) : Bool :=
   match current with
   | none => extensible
   | some cur =>
@@ -162,23 +162,12 @@ def isCompatibleFixed (extensible : Bool) (desc : Desc) (current : Option VProp)
       if desc.configurable == .tru then false
       else if desc.enumerable != .notSet && desc.enumerable.bool != cur.enumerable then false
       else if desc.isGeneric then true
-      else if desc.isData != !cur.accessor then false
-      else if desc.isData && !cur.accessor then
-        if desc.writable == .tru && !cur.writable then false
-        else if !cur.writable then
-          match desc.value with
-          | some v => if !sameAs v cur.value then false else true
-          | none => true
-        else true
-      else if desc.isAccessor && cur.accessor then
-        if desc.setter.isSome && cur.setterFunc != asObj desc.setter then false
-        else if desc.getter.isSome && cur.getterFunc != asObj desc.getter then false
-        else true
-      else true
+      else if desc.isData != !cur.accessor then desc.configurable != .fals
+      else isCompatible extensible desc current
     else true
 
-/-- the pre-cc2cbee accessor branch (`==` where `!=` is right) — kept only to show that the theorem
-distinguishes it (Props.isCompatible_preFix_witness). -/
+/-- REGRESSION ONLY: the accessor branch as it was before commit cc2cbee (`==` where `!=` is right); see
+Props.isCompatible_accessor_prefix_witness. -/
 def isCompatiblePreFix (extensible : Bool) (desc : Desc) (current : Option VProp) : Bool :=
   match current with
   | none => extensible
@@ -249,13 +238,14 @@ def toValuePropWith (accCond : Option Nat → Option Nat → Option Val → Opti
     setterFunc := s
     accessor := accCond g s d.getter d.setter }
 
-/-- the code as it is: `accessor` only when a getter or setter FUNCTION is present -/
+/-- builtin_object.go:114 toValueProp, the code as it is (after commit 43d21ca): `accessor` whenever a `get` or
+`set` field is present -/
 def toValueProp (d : Desc) : VProp :=
-  toValuePropWith (fun g s _ _ => g.isSome || s.isSome) d
-
-/-- `accessor` whenever a `get` or `set` field is present (fixes/C11-accessor-undefined.diff) -/
-def toValuePropFixed (d : Desc) : VProp :=
   toValuePropWith (fun _ _ g s => g.isSome || s.isSome) d
+
+/-- REGRESSION ONLY: before commit 43d21ca `accessor` was set only when a getter or setter FUNCTION was present -/
+def toValuePropPreFix (d : Desc) : VProp :=
+  toValuePropWith (fun g s _ _ => g.isSome || s.isSome) d
 
 /-- proxy.go:510 proxyGetOwnPropertyDescriptor. -/
 def gopdCheckWith (compat : CompatFn) (tvp : Desc → VProp) (prop : TProp) (targetExt : Bool)
@@ -815,8 +805,8 @@ def PD.toDesc (d : PD) : Desc :=
 def TProp.toOptCur : TProp → Option Cur := TProp.toCur
 
 /-- A proxy (proxy.go proxyObject) whose handler forwards every trap to the corresponding Reflect
-function of its target `T`, written with the MECHANISM checks of Part 2 (parameterised by the two
-functions that exist in a current and a repaired variant).  `logf t` records that trap `t` of this layer
+function of its target `T`, written with the MECHANISM checks of Part 2 (parameterised by the
+compatibility function and by toValueProp, so that the regenerated ones can be plugged in).  `logf t` records that trap `t` of this layer
 ran.  `throw` is false throughout (Reflect.* call the internal methods with throw=false). -/
 def proxyLayer {σ : Type} (compat : CompatFn) (tvp : Desc → VProp) (logf : Trap → σ → σ) (T : Ops σ) : Ops σ where
   getProto := fun s =>                                                     -- proxy.go:302
